@@ -187,6 +187,7 @@ class Sim:
         self.cancel_started = None
         self.resub_after_cancel = 0
         self.window_resub = False
+        self.prompted_recoveries = 0
         self.park_pid = None
         self.after_resub_try = 0
         self.cancel_cmd_step = None
@@ -284,12 +285,19 @@ class Sim:
         self.notes.append(text)
         self.log("NOTE", text)
 
-    def spawn_top(self, tag, argv, host, extra_env=None, agent=True):
+    def spawn_top(self, tag, argv, host, extra_env=None, agent=True, stdin_text=None):
         env = dict(self.env, VSIM_HOST=host, VSIM_TAG=tag)
         if extra_env:
             env.update(extra_env)
         lf = open(os.path.join(self.root, f"top_{tag}.log"), "w")
-        p = subprocess.Popen(argv, env=env, cwd=self.root, stdout=lf, stderr=subprocess.STDOUT, stdin=subprocess.DEVNULL, start_new_session=True)
+        sin = subprocess.DEVNULL
+        if stdin_text is not None:  # what the user types at the command's prompts
+            with open(os.path.join(self.root, f"stdin_{tag}.txt"), "w") as f:
+                f.write(stdin_text)
+            sin = open(os.path.join(self.root, f"stdin_{tag}.txt"))
+        p = subprocess.Popen(argv, env=env, cwd=self.root, stdout=lf, stderr=subprocess.STDOUT, stdin=sin, start_new_session=True)
+        if sin is not subprocess.DEVNULL:
+            sin.close()
         lf.close()
         self.tops[tag] = p
         self.pending[p.pid] = tag
@@ -1715,7 +1723,11 @@ class Sim:
         tag = f"recover{self.epoch}_{self.recoveries}"
         use_status = self.rng.random() < 0.25 if (self.scen.get("policy") or {}).get("kind") != "det" else False
         host = "login" if self.ff else self.rng.choice(["login", "login", "login2"])
-        if use_status:
+        if use_status and self.rng.random() < 0.5:
+            # show-status offers the recovery at a prompt; the user accepts (after a typo, sometimes)
+            self.prompted_recoveries += 1
+            self.spawn_top(tag, ["jade", "show-status", "-o", self.outname], host, stdin_text=self.rng.choice(["y\n", "Y\n", "maybe\ny\n"]))
+        elif use_status:
             self.spawn_top(tag, ["jade", "show-status", "-o", self.outname, "-n"], host)
         else:
             self.spawn_top(tag, ["jade", "try-submit-jobs", self.outname], host)
@@ -2167,6 +2179,7 @@ class Sim:
             "killed_nodes": sum(1 for b in self.batches.values() if b.get("killed")),
             "resub_after_cancel": self.resub_after_cancel,
             "window_resub": bool(self.window_resub),
+            "prompted_recoveries": self.prompted_recoveries,
             "window_resub_rc": self.top_rc.get("userresub_window"),
             "scancels": len(self.scancelled),
             "canceled": self.canceled_visible_step is not None,
